@@ -237,7 +237,7 @@ func init() {
 		Rule: "explicit-state DFS over histories (write by any writer, merge(i<-j), re-announcement) for the three store types; an extra observer replica receives heads of any writer at any time by manual Sync, topic message or direct-channel payload, plus announcements of arbitrary single entries and concurrent pairs in both list orders; replicas are restarted and reloaded from the cache, and saved/reloaded through snapshots. Oracle in every state, every replica: differential (same entry set => same ordered list, heads and view as the first path that reached that set) and reference (list == (time,writer) sort, heads == maximal elements, view == replay). Non-trivial = distinct states in which some replica holds entries of two writers.",
 		Units: func(tier string) []explore.Unit {
 			var u []explore.Unit
-			kinds := []struct{ kind, alpha string }{{"eventlog", "one"}, {"keyvalue", "tiny"}, {"docstore", "tiny"}}
+			kinds := []struct{ kind, alpha string }{{"eventlog", "one"}, {"keyvalue", "twokeys"}, {"docstore", "twokeys"}, {"keyvalue", "tiny"}}
 			for _, k := range kinds {
 				d1, d2, d3 := 4, 3, 3
 				if tier == "thorough" {
